@@ -47,6 +47,11 @@ CLAIMED = {
          "Generated-input search for crashes and hangs; sampled. Native fuzzing cannot be pinned to a seed: its campaigns are evidence of effort, its crashers are the reproducible artefact.",
          "Inputs up to 64 KiB; termination is observed (20 s bound, must repeat three times), not proved.",
          "DESIGN.md section 3, C09"),
+ "C10": ("exploration",
+         "round-trip property over rapid-generated message programs within the parser's feature set: build -> render -> EMLToMsgFromReader -> compare getters with the generator's model -> render again -> independent MIME reader compares leaves and checks header sections for duplicated fields",
+         "Generated-input search with a model/round-trip oracle; sampled.",
+         "A file's declared content type and chosen transfer encoding are not required to survive; descriptions and caller-chosen content-ids are outside the parser's feature set; 7bit/8bit contents are generated legal for those encodings.",
+         "DESIGN.md section 3, C10"),
  "C11": ("exploration",
          "rapid-generated message programs x generated histories of render operations (WriteTo, Write, NewReader, UpdateReader, WriteToFile, WriteToTempFile, failed renders by sink or producer fault); metamorphic oracle: every successful output is byte-identical to the first",
          "Generated histories against a byte-equality oracle; shapes, file sources/encodings and op sequences are sampled by rapid. Map-order dependent differences need several renders to show, so every history renders at least 4 times.",
